@@ -111,6 +111,9 @@ def run(prog, ctx):
                 wc, wb = float(rnd.choice([1, 2, 5, 40])), float(rnd.choice([1, 1, 3, 17]))
                 env = {"@prog": prog, "@ieee": True, "self.k": k, "self.centroids_weight": W, "weight_so_far": wsf,
                        "self.centroids": "C", "buffer": "B", "@fn:index": lambda base, i: base, "@fn:weight": lambda el: {"C": wc, "B": wb}[el],
+                       # merge() runs do_merge while the receiver's own buffer is still pending: the total the scale function sees
+                       # must not depend on it
+                       "self.buffer": [0.0] * 7, "len(self.buffer)": 7,
                        "@lenient": ("index",)}
                 P = formula.evaluate(lhs, env)
                 R = formula.evaluate(rhs, env)
